@@ -352,6 +352,16 @@ func referencedElsewhere(info *types.Info, files []*ast.File, d ast.Decl, self *
 func c10Generated(c *Ctx) {
 	for gi := 0; gi < c.N(10); gi++ {
 		g := genProgram(c.Rng)
+		// what travels with the code is assigned per file also when the package is decorated as one node
+		// (each file has its own import names)
+		for _, ld := range []bool{false, true} {
+			c.Res.Evaluations++
+			c.Res.hist("c10", fmt.Sprintf("package decorated as one node, line-directive=%v", ld))
+			if key, what := c09PackageMode(g.Prog, ld); key != "" {
+				pp := g.Prog
+				c.Res.fail(strings.Replace(key, "c09-", "c10-", 1), what, c10Move{Program: &pp, Decl: "package-mode", Twice: ld})
+			}
+		}
 		local := g.Prog.Pkgs[len(g.Prog.Pkgs)-1]
 		empty := progPkg{Path: "zz/empty", Files: []string{"package empty\n\nvar Nothing = 0\n"}}
 		prog := program{Pkgs: append(append([]progPkg{}, g.Prog.Pkgs...), empty)}
@@ -427,6 +437,10 @@ func init() {
 		var mv c10Move
 		if err := json.Unmarshal(raw, &mv); err != nil || mv.Decl == "" {
 			return false, "not a C10 generated input"
+		}
+		if mv.Decl == "package-mode" && mv.Program != nil {
+			key, what := c09PackageMode(*mv.Program, mv.Twice)
+			return key != "", what
 		}
 		key, what := c10Check(mv)
 		return key != "", what
